@@ -307,3 +307,70 @@ Proof.
     pose proof (hb_step E s o n0 n g g1 k t t1 Hinv Hc Ht Hc1 Ht1) as Hs. subst t1.
     eapply (IH _ g1 n); eauto. now apply step_inv.
 Qed.
+
+(* ================= liveness data across failover (C15 / C43) ================= *)
+Lemma restore_deadline pg now :
+  g_deadline (restore pg now) =
+  match pg_phase pg with
+  | PPreparing | PCompleting => Some (now + (if pg_rebto pg >? 0 then pg_rebto pg else default_rebalance))
+  | _ => None
+  end.
+Proof.
+  unfold restore.
+  match goal with |- g_deadline (ensure_leader ?G) = _ => destruct (ensure_leader_fields G) as [_ [_ [_ [_ [_ F6]]]]]; rewrite F6 end.
+  reflexivity.
+Qed.
+
+Definition sess_of (g : group) (k : Z) : option Z := option_map m_session (alookup k (g_members g)).
+
+Lemma cur_persisted E s n g :
+  inv E s -> cur s n = Some g ->
+  exists g0, wf E g0 /\ s_store s = Some (pview E g0) /\ g_phase g = g_phase g0 /\
+             (forall k, hb_of g k = hb_of g0 k) /\
+             (e_keep E = true -> forall k, sess_of g k = sess_of g0 k).
+Proof.
+  intros Hinv Hc. unfold cur, load in Hc. unfold inv in Hinv.
+  destruct (s_store s) as [pg|] eqn:Es.
+  - destruct Hinv as [g0 [Hw0 [Hpg Hmm]]]. subst pg. exists g0. split; [exact Hw0|]. split; [reflexivity|].
+    destruct Hmm as [Hm|Hm]; rewrite Hm in Hc; inversion Hc; subst g.
+    + destruct (restore_spec E g0 n Hw0) as [_ [_ [_ [Hp [_ [_ [_ [Hhb Hs]]]]]]]].
+      split; [exact Hp|]. split; [intros k; apply Hhb|]. intros Hk k. apply (Hs Hk).
+    + auto.
+  - rewrite Hinv in Hc. discriminate.
+Qed.
+
+(* what the coordinator that takes over knows about a member's liveness: the same
+   lastHeartbeat, the same session timeout (when the store keeps timeouts), and for a
+   Stable group no rebalance deadline -- so [survives] (the cleanup criterion) gives the
+   same verdict before and after the failover *)
+Lemma c15_liveness_preserved E s n0 n1 g k m :
+  inv E s -> cur s n0 = Some g -> alookup k (g_members g) = Some m ->
+  exists g' m', cur (failover s) n1 = Some g' /\ alookup k (g_members g') = Some m' /\
+    m_hb m' = m_hb m /\ (e_keep E = true -> m_session m' = m_session m) /\
+    (g_phase g = PStable -> g_deadline g' = None) /\
+    (e_keep E = true -> g_phase g = PStable -> g_deadline g = None ->
+     forall now, survives now g' m' = survives now g m).
+Proof.
+  intros Hinv Hc Hl.
+  destruct (cur_persisted E s n0 g Hinv Hc) as [g0 [Hw0 [Hst [Hph [Hhb Hss]]]]].
+  pose proof (failover_inv E s Hinv) as Hinv'.
+  assert (cur (failover s) n1 = Some (restore (pview E g0) n1)) as Hc'.
+  { unfold cur, load, failover. cbn. now rewrite Hst. }
+  destruct (cur_persisted E (failover s) n1 _ Hinv' Hc') as [g1 [Hw1 [Hst1 [Hph1 [Hhb1 Hss1]]]]].
+  assert (pview E g1 = pview E g0) as Hpv by (unfold failover in Hst1; cbn in Hst1; congruence).
+  set (g' := restore (pview E g0) n1) in *.
+  assert (hb_of g' k = hb_of g k) as Hhbk.
+  { rewrite Hhb1, Hhb. rewrite <- !phb_pview with (E := E). now rewrite Hpv. }
+  unfold hb_of in Hhbk. rewrite Hl in Hhbk. cbn in Hhbk.
+  destruct (alookup k (g_members g')) as [m'|] eqn:El'; [|discriminate]. cbn in Hhbk.
+  assert (e_keep E = true -> m_session m' = m_session m) as Hsess.
+  { intros Hk. destruct (restore_spec E g0 n1 Hw0) as [_ [_ [_ [_ [_ [_ [_ [_ Hs]]]]]]]].
+    pose proof (Hs Hk k) as H1. fold g' in H1. rewrite El' in H1.
+    pose proof (Hss Hk k) as H2. unfold sess_of in H2. rewrite Hl in H2.
+    rewrite <- H2 in H1. cbn in H1. congruence. }
+  assert (g_phase g = PStable -> g_deadline g' = None) as Hdl.
+  { intros Hs. unfold g'. rewrite restore_deadline. rewrite pview_eq. cbn [pg_phase]. now rewrite <- Hph, Hs. }
+  exists g', m'. split; [exact Hc'|]. split; [exact El'|]. split; [congruence|]. split; [exact Hsess|].
+  split; [exact Hdl|]. intros Hk Hs Hd now. unfold survives, expired. rewrite (Hdl Hs), Hd, (Hsess Hk).
+  assert (m_hb m' = m_hb m) as -> by congruence. reflexivity.
+Qed.
